@@ -1,12 +1,15 @@
 (* C09 — Reconnect lifecycle: redial after loss, one live transport, stop on Disconnect.
    Statements only; proofs in Reconnect_proofs.v. The model [trace cfg sc] is the loop goroutine of
-   reconnclient.go:81-171 (+ Disconnect 192-201, RetryClient.Disconnect retryclient.go:238-254) as a
+   reconnclient.go:81-182 (+ Disconnect 203-212, RetryClient.Disconnect retryclient.go:238-254) as a
    function of a per-iteration outcome oracle [sc_script] (dial error | connect failed: refused
    CONNACK / no CONNACK until the timeout / peer closed | connected then ended by peer close /
    protocol error / keep-alive timeout / graceful end) and of where a Disconnect call and a
    cancellation of Connect's context land (iteration, phase in {dialling, connecting, connected,
    waiting to redial}). Durations are int64 nanoseconds with explicit wrap-around ([wrap64]);
-   [c_guard cfg = true] is the code as it is (nil-chTask guard of fix cbf3ad0 present). *)
+   [c_guard cfg = true] and [c_abort cfg = true] are the code as it is (nil-chTask guard of fix
+   cbf3ad0; Disconnect cancels a pending handshake, fix 515978c). [c_timeout cfg] says whether a
+   connect timeout is configured (ReconnectOptions.Timeout <> 0); without one an absent CONNACK
+   ends only by Disconnect or, before the first success, by the caller's context ([blocks]). *)
 From MQ Require Import Base Codec Reconnect Reconnect_proofs.
 Open Scope Z_scope.
 
@@ -23,9 +26,11 @@ Theorem C09_backoff : forall cfg sc,
 Proof. exact backoff_prefix. Qed.
 
 (* ... and when nothing stops the loop it performs all of them: one wait after every failed
-   iteration and after every connection that was established and then lost *)
+   iteration and after every connection that was established and then lost
+   ([can_block]: "no CONNACK" is a failure of the attempt only if a connect timeout is configured) *)
 Theorem C09_backoff_complete : forall cfg script post,
   0 < c_base cfg < two62 -> 0 <= c_max cfg < two62 -> existsb is_graceful script = false ->
+  existsb (can_block cfg) script = false ->
   waits (trace cfg (no_stops script post)) = spec_waits (c_base cfg) (c_max cfg) 0 script.
 Proof. exact backoff_all. Qed.
 
@@ -48,7 +53,7 @@ Proof. exact wait_rule_no_overflow. Qed.
    element of fs without ever exiting, dials again, and that dial is followed by the new
    transport and its CONNECT *)
 Theorem C09_redials_until_connected : forall cfg fs ce post,
-  existsb is_graceful fs = false ->
+  existsb is_graceful fs = false -> existsb (can_block cfg) fs = false ->
   exists t1 k t2,
     trace cfg (no_stops (fs ++ [OConnected ce]) post) =
       t1 ++ [EvDial (length fs); EvOpen k; EvConnect k (c_conn cfg)] ++ t2 /\
@@ -72,10 +77,11 @@ Theorem C09_one_connect_same_options : forall cfg sc, connects_ok (c_conn cfg) (
 Proof. exact one_connect_same_options. Qed.
 
 (* "after Disconnect ... it never dials again and Disconnect returns": in every scenario, in
-   whichever phase Disconnect lands (also before any SetClient, and after the loop has exited),
-   what follows the call contains no Dial and no panic, and contains Disconnect's return *)
+   whichever phase Disconnect lands (also before any SetClient, while a CONNACK is awaited with or
+   without a connect timeout, and after the loop has exited), what follows the call contains no
+   Dial and no panic, and contains Disconnect's return *)
 Theorem C09_stop_disconnect : forall cfg sc pre post,
-  c_guard cfg = true -> trace cfg sc = pre ++ EvStop SDisconnect :: post ->
+  c_guard cfg = true -> c_abort cfg = true -> trace cfg sc = pre ++ EvStop SDisconnect :: post ->
   existsb (is_stop SDisconnect) pre = false ->
   (forall i, ~ In (EvDial i) post) /\ In EvDiscReturned post /\ ~ In EvPanic post.
 Proof. exact stop_disconnect_prop. Qed.
@@ -89,6 +95,15 @@ Theorem C09_stop_cancel : forall cfg sc n ph pre post,
   trace cfg sc = pre ++ EvStop SCancel :: post -> existsb (is_stop SCancel) pre = false ->
   (forall i, ~ In (EvDial i) post) /\ In EvExit post.
 Proof. exact stop_cancel_prop. Qed.
+
+(* F18, what fix 515978c repaired: without [c_abort] the previous theorem is false - no connect
+   timeout, CONNACK withheld, Disconnect during that wait: the loop stays in Connect for ever and
+   Disconnect never returns *)
+Theorem C09_stop_disconnect_without_abort_refuted :
+  exists cfg sc, c_guard cfg = true /\ c_abort cfg = false /\
+    existsb (is_stop SDisconnect) (trace cfg sc) = true /\ existsb is_ret (trace cfg sc) = false /\
+    (exists st, snd (run cfg sc) = Blocked st).
+Proof. exact f18_without_fix. Qed.
 
 (* Not a sentence of the property, recorded because the faithful model (and the implementation,
    see notes/C09.md) shows it: a Disconnect that arrives while a redial is in flight can leave the
@@ -108,4 +123,5 @@ Print Assumptions C09_one_transport_every_prefix.
 Print Assumptions C09_one_connect_same_options.
 Print Assumptions C09_stop_disconnect.
 Print Assumptions C09_stop_cancel.
+Print Assumptions C09_stop_disconnect_without_abort_refuted.
 Print Assumptions C09_all_closed_after_disconnect_refuted.
